@@ -22,7 +22,8 @@ def judgeJoinBack (a : A) (win agg : IRes) : Option String :=
   let nk := a.over.length
   let keys := keysOf a
   -- key tuple of each aggregate output row
-  let ngroups := (agg.cols.head?.map (·.eq.length)).getD 0
+  -- (without key columns and without any output column the one group of a non-empty table leaves no trace in `agg`)
+  let ngroups := (agg.cols.head?.map (·.eq.length)).getD (if nk == 0 then 1 else 0)
   let aggKeys := (List.range ngroups).map (fun g => (agg.cols.take nk).filterMap (·.eq[g]?))
   if win.cols.length != agg.cols.length then some "window and aggregate return different numbers of columns"
   else
